@@ -1624,7 +1624,10 @@ class Interp:
         gen = gens[i]
         for cond, item in self.iterate(self.eval(gen.iter)):
             if cond is not None:
-                raise Unsupported("comprehension over a symbolic range")
+                if self.merge:
+                    raise Unsupported("comprehension over a symbolic range in merge mode")
+                if not self.branch(cond):
+                    continue
             self.assign(gen.target, item)
             ok = True
             for test in gen.ifs:
